@@ -41,6 +41,9 @@ func (c *fnCtx) call(v *ast.CallExpr, pre *[]fnBind, want []string) ([]string, [
 						if x := c.lookup(id); x != nil && x.view != nil {
 							return one("(vcap "+x.view.name+")", tyInt)
 						}
+						if x := c.lookup(id); x != nil && c.fat[x] != nil {
+							return one("(zlen "+x.name+" + zlen "+c.fat[x].name+")", tyInt)
+						}
 					}
 				}
 				c.lostAt(v, "cap of %s (capacity is known for re-sliced parameters only)", src(v.Args[0]))
@@ -177,6 +180,19 @@ func (c *fnCtx) callTranslated(cal *fnFunc, v *ast.CallExpr, pre *[]fnBind, want
 			c.lostAt(a, "slice argument %s (elements needed)", src(a))
 		}
 		s += " " + paren(y)
+	}
+	for _, e := range cal.extras {
+		x := c.extras[e.key]
+		if x == nil {
+			c.lostAt(v, "call of %s (%s)", cal.name, e.name)
+		}
+		if x.typ.name == "?" {
+			x.typ = &fnType{k: "raw", name: e.typ}
+			for _, tp := range e.tps {
+				x.typ.params = append(x.typ.params, &fnType{k: "elem", name: tp})
+			}
+		}
+		s += " " + x.name
 	}
 	if cal.needZero {
 		if c.zero == nil {
@@ -359,6 +375,56 @@ func (c *fnCtx) stmt(s ast.Stmt, k func() term) term {
 		if cal := c.g.calleeOf(c.fn, call); cal != nil {
 			c.callTranslated(cal, call, &pre, nil)
 			// results are dropped
+			return wrap(pre, k())
+		}
+		if key := c.externKey(call); key != "" {
+			// an external procedure: a function argument that returns the new elements of its slice arguments
+			x := c.extras[key]
+			s := x.name
+			var ats, outs []string
+			var outT []string
+			var tset = map[string]bool{}
+			for _, a := range call.Args {
+				if xv := c.plainVar(a); xv != nil && xv.typ.k == "slice" {
+					if xv.noElems || c.fat[xv] != nil {
+						c.lostAt(a, "argument %s of %s", src(a), key)
+					}
+					s += " " + xv.name
+					ats = append(ats, arrowArg(xv.typ.coq()))
+					outs = append(outs, xv.name)
+					outT = append(outT, xv.typ.coq())
+					xv.typ.mentionsT(tset)
+					continue
+				}
+				y, t := c.expr(a, &pre)
+				if t.k == "view" || t.k == "slice" {
+					c.lostAt(a, "argument %s of %s", src(a), key)
+				}
+				s += " " + paren(y)
+				if t.k == "untyped" {
+					t = tyInt
+				}
+				ats = append(ats, arrowArg(t.coq()))
+				t.mentionsT(tset)
+			}
+			rt := "unit"
+			if len(outT) > 0 {
+				rt = strings.Join(outT, " * ")
+			}
+			typ := strings.Join(append(ats, "res "+paren(rt)), " -> ")
+			if x.typ.name != "?" && x.typ.name != typ {
+				c.lostAt(v, "second call of %s with different argument types", key)
+			}
+			x.typ = &fnType{k: "raw", name: typ}
+			for tp := range tset {
+				x.typ.params = append(x.typ.params, &fnType{k: "elem", name: tp})
+			}
+			c.setExtraType(key, typ, tset)
+			pat := tuple(outs)
+			if len(outs) == 0 {
+				pat = "_"
+			}
+			pre = append(pre, fnBind{pat: pat, m: tRaw{s}, effect: true})
 			return wrap(pre, k())
 		}
 		c.lostAt(v, "call statement %s", src(call.Fun))
@@ -724,6 +790,72 @@ func (c *fnCtx) assign1(st *ast.AssignStmt, l, r ast.Expr, k func() term) term {
 		bindRaw(&pre, x.name, "go_set "+x.name+" "+paren(i)+" "+paren(e))
 		return wrap(pre, k())
 	}
+	// w := append(x, e...) into another variable: the run time's choice (where the result lives, its
+	// capacity, what the rest of its array holds) is the oracle function argument append_
+	if call := oracleAppend(st); call != nil {
+		xv := c.plainVar(call.Args[0])
+		if xv == nil || xv.typ.k != "slice" || xv.noElems || xv.typ.elem.k == "slice" || call.Ellipsis.IsValid() || st.Tok != token.DEFINE {
+			c.lostAt(st, "append into another variable (only w := append(x, e...) on a list-represented slice)")
+		}
+		var xs []string
+		for _, a := range call.Args[1:] {
+			y, t := c.expr(a, &pre)
+			if t.k == "slice" || t.k == "view" {
+				c.lostAt(a, "appended slice value")
+			}
+			xs = append(xs, y)
+		}
+		w := c.target(l, st, xv.typ)
+		if w == nil {
+			c.lostAt(st, "append to _")
+		}
+		sp := c.fat[w]
+		if sp == nil {
+			sp = c.newVar(w.name+"_spare", xv.typ, "local")
+			sp.pos = w.pos
+			c.fat[w] = sp
+		}
+		o := c.extras["append"]
+		lt := xv.typ.coq()
+		typ := arrowArg(lt) + " -> " + arrowArg(lt) + " -> res (" + lt + " * " + lt + ")"
+		tset := map[string]bool{}
+		xv.typ.mentionsT(tset)
+		o.typ = &fnType{k: "raw", name: typ}
+		for tp := range tset {
+			o.typ.params = append(o.typ.params, &fnType{k: "elem", name: tp})
+		}
+		c.setExtraType("append", typ, tset)
+		pre = append(pre, fnBind{pat: tuple([]string{w.name, sp.name}), m: tRaw{o.name + " " + xv.name + " [" + strings.Join(xs, "; ") + "]"}})
+		return wrap(pre, k())
+	}
+	// z = w[lo:hi] where w came from an oracle append: exact up to cap(w); w must be dead afterwards
+	if se, ok := r.(*ast.SliceExpr); ok && !se.Slice3 {
+		if w := c.plainVar(se.X); w != nil && c.fat[w] != nil {
+			z := c.plainVar(l)
+			if z == nil || z.typ.k != "slice" || z.noElems || z.view != nil || c.fat[z] != nil {
+				c.lostAt(st, "re-slice of %s into %s", w.name, src(l))
+			}
+			used := false
+			ast.Inspect(c.fn.decl.Body, func(n ast.Node) bool {
+				if id, ok := n.(*ast.Ident); ok && id.Pos() > st.End() && c.lookup(id) == w {
+					used = true
+				}
+				return true
+			})
+			if used {
+				c.lostAt(st, "re-slice of %s into %s while %s is still used (aliasing)", w.name, src(l), w.name)
+			}
+			lo, hi := "0", "(zlen "+w.name+")"
+			if se.Low != nil {
+				lo, _ = c.expr(se.Low, &pre)
+			}
+			if se.High != nil {
+				hi, _ = c.expr(se.High, &pre)
+			}
+			bindRaw(&pre, z.name, "go_sub_cap "+w.name+" "+c.fat[w].name+" "+paren(lo)+" "+paren(hi))
+			return wrap(pre, k())
+		}
+	}
 	// x = append(x, e...)   x = x[lo:hi]   x = make(...)
 	lv := c.plainVar(l)
 	if call, ok := r.(*ast.CallExpr); ok {
@@ -809,6 +941,25 @@ func (c *fnCtx) assign1(st *ast.AssignStmt, l, r ast.Expr, k func() term) term {
 	}
 	pre = append(pre, fnBind{pat: x.name, e: e, isLet: true})
 	return wrap(pre, k())
+}
+
+func arrowArg(s string) string {
+	if strings.Contains(s, "->") || strings.Contains(s, " * ") {
+		return "(" + s + ")"
+	}
+	return s
+}
+
+func (c *fnCtx) setExtraType(key, typ string, tset map[string]bool) {
+	for _, e := range c.fn.extras {
+		if e.key == key {
+			e.typ = typ
+			e.tps = nil
+			for tp := range tset {
+				e.tps = append(e.tps, tp)
+			}
+		}
+	}
 }
 
 func (c *fnCtx) isTmp(s string) bool {
